@@ -6,14 +6,20 @@
 (* geometric sequence of scale factors s_1 > s_2 > ... > s_9 (s_{j+1} ~ s_j/2) *)
 (* through an error sequence e_j = r_j / w_j given as residual r_j >= 0 and    *)
 (* weight w_j > 0 (so that nothing is divided):                                *)
-(*   decay   e_{j+1} <= (1/4 + 1/16) e_j + floor_{j+1}   wherever e_j is above *)
+(*   decay   e_{j+1} <= (1/4 + 3/16) e_j + floor_{j+1}   wherever e_j is above *)
 (*           the rounding floor, i.e. r_j > F  (F: absolute rounding floor of   *)
 (*           the traced quantity; in units of e it is F / w_j and rises as the  *)
 (*           scale factor falls)                                               *)
 (*   end     e_9 <= 2 e_1 (s_9 / s_1)^2 + floor_9                               *)
 (*   run     at least four consecutive j lie above the floor (otherwise the     *)
 (*           sequence carries no information: noted, not judged)               *)
-(* all cross-multiplied:  16 (r_{j+1} - F) w_j <= 5 r_j w_{j+1}, ...            *)
+(* all cross-multiplied:  16 (r_{j+1} - F) w_j <= 7 r_j w_{j+1}, ...            *)
+(* The order of convergence is judged by "end" (a sequence that converges with  *)
+(* order 3/2 passes "decay" and fails "end"); "decay" excludes plateaus and     *)
+(* non-monotone sequences.  Its constant was 5/16 at first: a lens whose        *)
+(* second-order coefficient nearly cancels (e = a s^2 - b s^4 with b s_1^2 =    *)
+(* 0.4 a, relative discrepancy 3e-9 at s_1) has a first ratio of 0.38 although  *)
+(* it converges quadratically - the constant, not the lens, was wrong.          *)
 (*                                                                            *)
 (* Quantities (one event each; heights and direction tangents at every         *)
 (* surface, for the marginal-type family (Hy = 0, pupil eps_j) and the          *)
@@ -38,7 +44,7 @@ NJ == 9
 FLOORBITS == 40
 
 LimAbove(r, F, j) == DLt(F, r[j])
-LimDecayAt(r, w, F, j) == DLe(DShift(DMul(DSub(r[j + 1], F), w[j]), 4), DMul(DInt(5), DMul(r[j], w[j + 1])))
+LimDecayAt(r, w, F, j) == DLe(DShift(DMul(DSub(r[j + 1], F), w[j]), 4), DMul(DInt(7), DMul(r[j], w[j + 1])))
 LimDecay(r, w, F) == \A j \in 1..(NJ - 1) : LimAbove(r, F, j) => LimDecayAt(r, w, F, j)
 LimEnd(r, w, s, F) == LimAbove(r, F, 1) =>
                         DLe(DMul(DMul(DSub(r[NJ], F), w[1]), DSq(s[1])), DTwo(DMul(DMul(r[1], w[NJ]), DSq(s[NJ]))))
